@@ -369,6 +369,15 @@ func runCase(c Case) (res result) {
 	if cwdKind != cwdPhysical {
 		frameTrig = cwdTrigger(cwdKind)
 	}
+	// Trigger of a violation on the paths of argument ai: the multi-argument coordinate of the
+	// last command that named it, if any (assigned in the step loop)
+	var argMulti []string
+	argTrig := func(ai int) string {
+		if ai < len(argMulti) && argMulti[ai] != "" {
+			return argMulti[ai]
+		}
+		return unattr(c.Args[ai])
+	}
 	// Trigger for the re-track clauses: intrinsic coordinates of the arguments first
 	retrackTrig := func(args []int) string {
 		for _, ai := range args {
@@ -516,6 +525,7 @@ func runCase(c Case) (res result) {
 
 	st := make([]int, n)
 	lk := make([]int, n)
+	argMulti = make([]string, n) // multi-argument coordinate of the last command that named the argument
 	desync := make([]bool, n)
 	replain := make([]bool, n) // plain track just re-ran on a tracked+lockable argument
 	everSpace := false
@@ -551,6 +561,54 @@ func runCase(c Case) (res result) {
 	for k, step := range c.Steps {
 		res.counts["steps_"+step.Op]++
 		mode := c.Args[step.Args[0]].Mode
+		// ---- multi-argument coordinates (from the model's state before the command) ----
+		for _, ai := range step.Args {
+			argMulti[ai] = ""
+		}
+		if len(step.Args) > 1 {
+			res.counts["multi_arg_commands"]++
+			res.counts["multi_arg_commands/"+step.Op]++
+			res.counts[fmt.Sprintf("multi_arg_commands_with_%d_args", len(step.Args))]++
+			res.counts["multi_arg_commands_cwd/"+cwdKind]++
+			if c.Dir == "" {
+				res.counts["multi_arg_commands_from_top_level"]++
+			} else {
+				res.counts["multi_arg_commands_from_subdir"]++
+			}
+			if step.Op == "untrack" {
+				for _, ai := range step.Args {
+					argMulti[ai] = trigMultiUntrack
+				}
+			} else {
+				knownSeen, hit := false, false
+				for _, ai := range step.Args {
+					before := knownSeen
+					known := st[ai] == stTracked && (step.Op == "track" || step.Op == "track-lockable" && lk[ai] == lkYes || step.Op == "track-not-lockable" && lk[ai] == lkNo)
+					switch {
+					case known:
+						res.counts["multi_arg_args_known"]++
+						knownSeen = true
+					case st[ai] == stTracked && lk[ai] == lkUnknown && step.Op != "track":
+						// the model does not know the lockable state (e.g. after a plain re-track
+						// of a lockable argument): git-lfs may well find it "already supported"
+						res.counts["multi_arg_args_tracked_lockable_state_unknown"]++
+						knownSeen = true
+					case st[ai] == stTracked:
+						res.counts["multi_arg_args_tracked_other_lockable_state"]++
+					default:
+						res.counts["multi_arg_args_new"]++
+					}
+					if !known && before {
+						argMulti[ai] = trigMultiKnownFirst
+						hit = true
+					}
+				}
+				if hit {
+					res.counts["multi_arg_commands_known_before_new"]++
+					res.counts["multi_arg_commands_known_before_new/"+step.Op]++
+				}
+			}
+		}
 		var argv []string
 		if step.Op == "untrack" {
 			argv = []string{"untrack"}
@@ -834,7 +892,7 @@ func runCase(c Case) (res result) {
 					res.counts["attr_values_compared"] += 4
 					nt := a.Hazard
 					if nt == "" {
-						nt = unattr(a)
+						nt = argTrig(ai)
 					}
 					if f := attrOf(t, u, "filter"); f != "lfs" {
 						bad("not-tracked", nt, "denoted by the tracked argument but filter="+f)
@@ -844,7 +902,7 @@ func runCase(c Case) (res result) {
 						bad("lfs-attrs-incomplete", nt, fmt.Sprintf("filter=lfs but diff=%s merge=%s text=%s", attrOf(t, u, "diff"), attrOf(t, u, "merge"), attrOf(t, u, "text")))
 						break
 					}
-					lt := unattr(a)
+					lt := argTrig(ai)
 					if strings.HasPrefix(a.Own, "parent-covers") {
 						lt = trigParentCover
 					}
@@ -869,7 +927,7 @@ func runCase(c Case) (res result) {
 					res.counts["must_paths_checked_untracked"]++
 					res.counts["attr_values_compared"]++
 					if v, w := attrOf(t, u, "filter"), attrOf(s0, u, "filter"); v != w {
-						ut := unattr(a)
+						ut := argTrig(ai)
 						if filenameHasGlob(a) {
 							ut = trigUntrackGlob
 						}
@@ -1101,7 +1159,7 @@ func main() {
 		replay(p)
 	}
 	run := evid.New("C19", "exploration")
-	run.Rule = "seeded generator, case = (invocation directory, pre-existing .gitattributes variant, 1-2 arguments, sequence of 1..8 track/--lockable/--not-lockable/untrack/repeat commands). Arguments: patterns from a small glob grammar (literal, *.ext, lit*, lit?ext, [0-9], dir/*.ext, dir/**, **/x, leading /; literals over letters, digits, space, #, quotes, !, punctuation, non-ASCII) or --filename names over printable ASCII, space, TAB, quotes, #, !, * ? [ ], backslash, non-ASCII, optionally below a sub-directory. Universe U per case = paths drawn from the argument's shape plus near misses (space<->TAB, other directory depth, outside the invocation directory, case, suffix/prefix, glob characters expanded, escapes added/removed) plus paths covered by the pre-existing patterns. Oracle = git check-attr -a on U in the repository under test against (a) Git's own matcher on the C-quoted pattern in a twin repository, (b) the single path d/N for --filename, (c) the table before the sequence. Working directory of the git-lfs commands: physical path, or (one case in three) a logical path with PWD set, through a symlink to the repository's parent / the repository / the parent of a nested invocation directory. Appended focus cases (index >= 2^20): {track --lockable A; track A; track A ...}, {track P twice from d while the top-level file already holds the LFS line d/P}, {op1 A; op1 A; op2 A; op2 A}, each under all four ways of reaching the working directory. A class is (argument modes, feature set or known-trigger coordinate of each argument, kind of invocation directory, pre-existing variant, way the working directory is reached, focus kind); distinct_nontrivial counts classes executed."
+	run.Rule = "seeded generator, case = (invocation directory, pre-existing .gitattributes variant, 1-2 arguments, sequence of 1..8 track/--lockable/--not-lockable/untrack/repeat commands). Arguments: patterns from a small glob grammar (literal, *.ext, lit*, lit?ext, [0-9], dir/*.ext, dir/**, **/x, leading /; literals over letters, digits, space, #, quotes, !, punctuation, non-ASCII) or --filename names over printable ASCII, space, TAB, quotes, #, !, * ? [ ], backslash, non-ASCII, optionally below a sub-directory. Universe U per case = paths drawn from the argument's shape plus near misses (space<->TAB, other directory depth, outside the invocation directory, case, suffix/prefix, glob characters expanded, escapes added/removed) plus paths covered by the pre-existing patterns. Oracle = git check-attr -a on U in the repository under test against (a) Git's own matcher on the C-quoted pattern in a twin repository, (b) the single path d/N for --filename, (c) the table before the sequence. Working directory of the git-lfs commands: physical path, or (one case in three) a logical path with PWD set, through a symlink to the repository's parent / the repository / the parent of a nested invocation directory. Appended focus cases (index >= 2^20): {track --lockable A; track A; track A ...}, {track P twice from d while the top-level file already holds the LFS line d/P}, {op1 A; op1 A; op2 A; op2 A}, each under all four ways of reaching the working directory. Appended multi-argument cases (index >= 2^21): 3-4 arguments in the states {tracked with the requested lockable state, tracked with the other one, new}, then track / --lockable / --not-lockable [--filename] over all of them in a drawn order (a known argument first in every second case), repeated, untrack of 2-3 of them, another track form in another order; top level and sub-directories, all four ways of reaching the working directory; per argument the single-argument expectation. A class is (argument modes, feature set or known-trigger coordinate of each argument, kind of invocation directory, pre-existing variant, way the working directory is reached, focus kind); distinct_nontrivial counts classes executed."
 	run.Assumptions = []string{
 		"Git 2.39's check-attr and its reading of C-quoted patterns in .gitattributes are the authority on what a pattern denotes",
 		"--filename N without '/' : only d/N must be tracked, d/**/N may be (gitattributes basename rule); everything else must not change",
@@ -1115,7 +1173,8 @@ func main() {
 	}
 	base := run.N(176, 5000)
 	nfocus := run.N(36, 720) // multiple of 12 = 3 focus kinds x 4 ways of reaching the working directory
-	total := base + nfocus
+	nmulti := run.N(24, 480) // multiple of 24 = 4 ways of reaching the working directory x 3 main ops x {top level, sub-directory}
+	total := base + nfocus + nmulti
 	run.SetMinEvaluations(total / 2)
 
 	cases := make([]Case, total)
@@ -1123,7 +1182,11 @@ func main() {
 		if i < base {
 			cases[i] = genCase(run.Seed, i)
 		} else {
-			cases[i] = genCase(run.Seed, focusBase+i-base)
+			if i < base+nfocus {
+				cases[i] = genCase(run.Seed, focusBase+i-base)
+			} else {
+				cases[i] = genCase(run.Seed, multiBase+i-base-nfocus)
+			}
 		}
 	}
 	results := make([]result, total)
